@@ -69,9 +69,10 @@ def generate(ctx, focus, max_len, other_fams, what, handles=(1, 2), base=(1, 2),
 def _replay_one(job):
     from . import gridmachine as M
 
-    tid, hist, sources = job
+    tid, hist, sources = job[:3]
     try:
-        events = M.replay(hist, {int(k): v for k, v in sources.items()})
+        fn = M.replay_twin if (len(job) > 3 and job[3] == "twin") else M.replay
+        events = fn(hist, {int(k): v for k, v in sources.items()})
         return {"tid": tid, "sources": sources, "hist": hist, "events": events, "init": M.replay.last_init}
     except Exception as e:  # noqa: harness failure, reported as such
         import traceback
@@ -83,7 +84,7 @@ def replay_all(jobs):
     return pmap(_replay_one, jobs)
 
 
-EVENT_FIELDS = ("act", "h", "args", "raised", "fresh_raised", "res_ok", "obs", "bad", "tmpl", "earlier", "grew")
+EVENT_FIELDS = ("act", "h", "args", "raised", "fresh_raised", "res_ok", "obs", "bad", "tmpl", "earlier", "grew", "inputs")
 
 
 def validate(ctx, traces, what, workers=8, handles=(1, 2, 3), base=(1, 2)):
@@ -142,3 +143,56 @@ def shrink(hist, sources, line, clause, validate_fn):
 
 def compact(hist):
     return " ; ".join("%s@%d(%s)" % (a, h, ",".join(map(str, args))) for a, h, args in hist)
+
+
+def report(ctx, traces, viol, drift):
+    by_tid = {t["tid"]: t for t in traces}
+    for t in traces:
+        ctx.count(1, (compact(t["hist"]), tuple(sorted(t["sources"].items()))))
+    seen = set()
+    for tid, items in sorted(viol.items()):
+        t = by_tid[tid]
+        for line, clause in sorted(items):
+            ev = t["events"][line - 1]
+            prev = [e["act"] for e in t["events"][: line - 1]]
+            key = "%s|%s|%s" % (clause, compact(t["hist"][:line]), "/".join(t["sources"][k] for k in sorted(t["sources"])))
+            if key in seen:
+                continue
+            seen.add(key)
+            sig = {
+                "clause": clause,
+                "act": ev["act"],
+                "after": prev[-1] if prev else "",
+                "same_grid": bool(prev) and t["events"][line - 2]["h"] == ev["h"],
+            }
+            ctx.violation(
+                key,
+                clause,
+                detail={k: ev.get(k) for k in ("args", "where", "err", "fresh_err", "obs", "bad", "bad_detail", "tmpl", "earlier") if ev.get(k)},
+                sig=sig,
+                replay={"history": t["hist"][:line], "sources": t["sources"]},
+            )
+    n_drift = sum(len(v) for v in drift.values())
+    if n_drift:
+        ex = sorted(drift.items())[0]
+        print("MODEL-DRIFT: %d steps materialised variables the dependency table does not predict, e.g. %s %s" % (n_drift, compact(by_tid[ex[0]]["hist"]), ex[1][:1]))
+    ctx.note("model_drift_steps", n_drift)
+    for t in traces[:2]:
+        ctx.sample({"history": compact(t["hist"]), "sources": t["sources"], "events": [{k: e.get(k) for k in ("act", "h", "args", "res_ok", "obs", "bad")} for e in t["events"]]})
+
+
+
+
+def replay_file(path):
+    from . import gridmachine as M
+
+    data = json.load(open(path))
+    rc = 0
+    for case in data["cases"][:20]:
+        rp = case["replay"]
+        evs = M.replay(rp["history"], {int(k): v for k, v in rp["sources"].items()})
+        last = evs[-1]
+        print(compact(rp["history"]), "->", {k: last.get(k) for k in ("res_ok", "raised", "fresh_raised", "obs", "bad", "tmpl", "earlier", "inputs", "where")})
+        if not last.get("res_ok") or last.get("bad") or last.get("tmpl") or last.get("earlier") or last.get("inputs") or last.get("raised") != last.get("fresh_raised"):
+            rc = 1
+    return rc
